@@ -14,6 +14,8 @@ NoDie == <<0, 0>>
 Die11 == <<1, 1>>
 Die12 == <<1, 2>>
 Die21 == <<2, 1>>
+Die22 == <<2, 2>>
+Die31 == <<3, 1>>
 Sym == Permutations(1..N)
 \* validation of a recorded run: every terminal state reachable under the recorded assignment
 \* must have the recorded outcome
